@@ -227,11 +227,11 @@ func ruleDurabilityErrors(r *Run, rule string, k *storeKind) {
 			var elems []ssa.Value
 			switch x := in.(type) {
 			case *ssa.Call:
-				if b, ok := x.Call.Value.(*ssa.Builtin); ok && b.Name() == "append" && strings.Contains(types.TypeString(x.Type(), nil), "io.Closer") {
+				if b, ok := x.Call.Value.(*ssa.Builtin); ok && b.Name() == "append" && strings.Contains(tstr(x.Type(), nil), "io.Closer") {
 					elems, _ = appendedElems(x)
 				}
 			case *ssa.Store:
-				if strings.Contains(types.TypeString(x.Val.Type(), nil), "io.Closer") {
+				if strings.Contains(tstr(x.Val.Type(), nil), "io.Closer") {
 					elems = []ssa.Value{x.Val}
 				}
 			}
@@ -1484,7 +1484,7 @@ func findCloseGate(w *World, fn *ssa.Function) *closeGate {
 	for _, cs := range callsIn(fn, func(cc *ssa.CallCommon) bool {
 		g := staticCallee(cc)
 		return g != nil && g.Pkg == w.SPkg && g.Signature.Recv() != nil && len(cc.Args) == 1 && c.S(cc.Args[0]) == "P0" &&
-			g.Signature.Results().Len() == 1 && types.TypeString(g.Signature.Results().At(0).Type(), nil) == "bool"
+			g.Signature.Results().Len() == 1 && tstr(g.Signature.Results().At(0).Type(), nil) == "bool"
 	}) {
 		call, ok := cs.(*ssa.Call)
 		if !ok {
